@@ -1,6 +1,7 @@
 package harness
 
 import (
+	"fmt"
 	"os"
 	"testing"
 )
@@ -8,6 +9,14 @@ import (
 func TestMain(m *testing.M) {
 	if os.Getenv("VERIF_WORKER") != "" {
 		os.Exit(m.Run())
+	}
+	if v := os.Getenv("VERIF_RACE"); v != "" {
+		// race side mode: VERIF_RACE=<prop>:<seed>:<seconds>
+		var prop string
+		var seed uint64
+		var secs int
+		fmt.Sscanf(v, "%3s:%d:%d", &prop, &seed, &secs)
+		os.Exit(RaceMain(prop, seed, secs))
 	}
 	args := os.Args[1:]
 	// allow "go test" style invocation without arguments (nothing to do)
